@@ -242,6 +242,30 @@ func (q *Queue[T]) waitForNew(ctx context.Context) error {
 	return nil
 }
 
+// caller must hold the lock. Blocks until an entry is linked after cur,
+// the tail of the queue changes, the queue is closed, or the context
+// ends.
+func (q *Queue[T]) unsafeWaitForLink(ctx context.Context, cur *entry[T]) error {
+	ctx, cancel := context.WithCancel(ctx)
+	go func() { <-ctx.Done(); q.mu.Lock(); defer q.mu.Unlock(); q.nupdates.Broadcast() }()
+	defer cancel()
+
+	head := q.back
+	for cur.link == nil && head == q.back {
+		if q.closed {
+			return ErrQueueClosed
+		}
+		select {
+		case <-ctx.Done():
+			return ctx.Err()
+		default:
+			q.nupdates.Wait()
+		}
+	}
+
+	return nil
+}
+
 // Close closes the queue. After closing, any further Add calls will report an
 // error, but items that were added to the queue prior to closing will still be
 // available for Remove and Wait. Wait will report an error without blocking if
@@ -375,12 +399,19 @@ func (q *Queue[T]) Producer() fun.Producer[T] {
 				return o, io.EOF
 			}
 
-			q.mu.Unlock()
-			if err := q.waitForNew(ctx); err != nil {
+			// wait without releasing the lock between the look at
+			// next.link and parking, so that an Add cannot be missed.
+			if err := q.unsafeWaitForLink(ctx, next); err != nil {
+				q.mu.Unlock()
 				return o, err
 			}
 
-			q.mu.Lock()
+			if next.link == nil {
+				// the entry the iterator holds was removed and
+				// nothing was linked after it: no item to yield.
+				q.mu.Unlock()
+				return o, fun.ErrIteratorSkip
+			}
 			if next.link != q.front {
 				next = next.link
 			}
